@@ -81,3 +81,92 @@ pub fn handle_acbparse(case: &JsonValue) -> JsonValue {
     o["rows"] = rows;
     o
 }
+
+// ---- text layer (C19 text extension) ----
+//   parsetext : {"text": document text, "path": file path}
+//              -> acb::peripheral::broker::etrade::parse_pdf_text (public) on the text:
+//                 {"status":"ok","kind":"benefits","recs":[..]} | {"status":"ok","kind":"trades","recs":[..]}
+//                 | {"status":"err","error":msg}   (a panic is reported by the main loop)
+//              dates as Julian day numbers, decimals as their exact decimal expansion
+use acb::peripheral::broker::etrade::{parse_pdf_text, EtradePdfContent};
+
+fn jd(d: time::Date) -> JsonValue {
+    d.to_julian_day().into()
+}
+fn opt_jd(d: Option<time::Date>) -> JsonValue {
+    match d {
+        Some(d) => jd(d),
+        None => JsonValue::Null,
+    }
+}
+
+pub fn handle_parsetext(case: &JsonValue) -> JsonValue {
+    let text = case["text"].as_str().unwrap();
+    let path = PathBuf::from(case["path"].as_str().unwrap_or("doc.txt"));
+    let mut o = JsonValue::new_object();
+    match parse_pdf_text(text, &path) {
+        Err(e) => {
+            o["status"] = "err".into();
+            o["error"] = e.into();
+        }
+        Ok(EtradePdfContent::BenefitConfirmation(bs)) => {
+            o["status"] = "ok".into();
+            o["kind"] = "benefits".into();
+            let mut recs = JsonValue::new_array();
+            for b in bs {
+                let mut r = JsonValue::new_object();
+                r["sec"] = b.security.clone().into();
+                r["date"] = jd(b.acquire_tx_date);
+                r["settle"] = jd(b.acquire_settle_date);
+                r["price"] = crate::util::dec(&b.acquire_share_price);
+                r["shares"] = crate::util::dec(&b.acquire_shares);
+                r["stc_td"] = opt_jd(b.sell_to_cover_tx_date);
+                r["stc_sd"] = opt_jd(b.sell_to_cover_settle_date);
+                r["stc_price"] = opt_dec(b.sell_to_cover_price);
+                r["stc_shares"] = opt_dec(b.sell_to_cover_shares);
+                r["stc_fee"] = opt_dec(b.sell_to_cover_fee);
+                r["note"] = b.plan_note.clone().into();
+                r["sell_note"] = match &b.sell_note {
+                    Some(s) => s.clone().into(),
+                    None => JsonValue::Null,
+                };
+                r["file"] = b.filename.clone().into();
+                recs.push(r).unwrap();
+            }
+            o["recs"] = recs;
+        }
+        Ok(EtradePdfContent::TradeConfirmation(ts)) => {
+            o["status"] = "ok".into();
+            o["kind"] = "trades".into();
+            let mut recs = JsonValue::new_array();
+            for t in ts {
+                let mut r = JsonValue::new_object();
+                r["sec"] = t.security.clone().into();
+                r["td"] = jd(t.trade_date);
+                r["sd"] = jd(t.settlement_date);
+                r["td_text"] = t.trade_date_and_time.clone().into();
+                r["sd_text"] = t.settlement_date_and_time.clone().into();
+                r["act"] = t.action.to_string().into();
+                r["price"] = crate::util::dec(&t.amount_per_share);
+                r["shares"] = crate::util::dec(&t.num_shares);
+                r["comm"] = crate::util::dec(&t.commission);
+                r["currency"] = t.currency.to_string().into();
+                r["memo"] = t.memo.clone().into();
+                r["has_rate"] = t.exchange_rate.is_some().into();
+                r["affiliate"] = t.affiliate.name().to_string().into();
+                r["row"] = t.row_num.into();
+                r["acct"] = t.account.account_num.clone().into();
+                r["acct_type"] = t.account.account_type.clone().into();
+                r["broker"] = t.account.broker_name.into();
+                r["tiebreak"] = t.sort_tiebreak.is_some().into();
+                r["file"] = match &t.filename {
+                    Some(s) => s.clone().into(),
+                    None => JsonValue::Null,
+                };
+                recs.push(r).unwrap();
+            }
+            o["recs"] = recs;
+        }
+    }
+    o
+}
